@@ -456,6 +456,10 @@ func (x *exec) enterLoop(li *loopInfo, s *State) *State {
 	// 2. modified set by fixpoint of dry runs
 	m := newModSet()
 	var hs *State
+	freshBefore := map[*Term]bool{}
+	for r := range e.freshRefs {
+		freshBefore[r] = true
+	}
 	for round := 0; round < 8; round++ {
 		consts := map[*Term]bool{}
 		hs = x.havoc(s, m, consts, tag)
@@ -468,7 +472,10 @@ func (x *exec) enterLoop(li *loopInfo, s *State) *State {
 		for _, b := range backs {
 			for cell, v := range b.cells {
 				if !valueEq(v, hs.cells[cell]) {
-					if _, existed := s.cells[cell]; existed || true {
+					// variables declared inside the body (or inside inlined callees)
+					// are re-initialised on every iteration: only those that exist
+					// before the loop carry values around the back edge
+					if _, existed := s.cells[cell]; existed {
 						m.cells[cell] = true
 					}
 				}
@@ -482,6 +489,22 @@ func (x *exec) enterLoop(li *loopInfo, s *State) *State {
 				var rows []*Term
 				if rowsBetween(t, base, &rows, 0) {
 					ok := true
+					// rows of objects allocated inside the loop body did not exist
+					// before the iteration: nothing to havoc for them
+					newFresh := map[*Term]bool{}
+					for r := range e.freshRefs {
+						if !freshBefore[r] {
+							newFresh[r] = true
+						}
+					}
+					var keep []*Term
+					fm := map[*Term]bool{}
+					for _, r := range rows {
+						if !mentions(r, newFresh, fm) {
+							keep = append(keep, r)
+						}
+					}
+					rows = keep
 					for _, r := range rows {
 						if mentions(r, consts, memo) {
 							ok = false
@@ -514,6 +537,14 @@ func (x *exec) enterLoop(li *loopInfo, s *State) *State {
 		}
 		if m.size() == before {
 			break
+		}
+		if e.Trace {
+			fmt.Printf("  loop %d round %d: cells=%d whole=%v rows=%d next=%v alloc=%v\n", li.ordinal, round, len(m.cells), len(m.whole), len(m.heap), m.next, m.alloc)
+			for k, r := range m.heap {
+				for _, t := range r {
+					fmt.Printf("     row %s: %s\n", k, shortTerm(t))
+				}
+			}
 		}
 		if round == 7 {
 			e.unsupported("loop %d: modified set did not stabilise", li.ordinal)
@@ -1309,4 +1340,12 @@ func (x *exec) zeroStructElems(s *State, arr *Term, el types.Type) {
 		h := e.heapGet(s, lp.key, Array(Int, Array(Int, lp.sort)))
 		e.heapSet(s, lp.key, c.Store(h, arr, c.ConstArr(Array(Int, lp.sort), lp.zero)))
 	}
+}
+
+func shortTerm(t *Term) string {
+	s := t.String()
+	if len(s) > 160 {
+		s = s[:160] + "..."
+	}
+	return s
 }
